@@ -242,6 +242,16 @@ pub trait CloneBoxed<'s, I: Kind<'s>, R: Er<'s, I>>: Parser<'s, I, Val, Ex<R>> +
 }
 impl<'s, I: Kind<'s>, R: Er<'s, I>, T: Parser<'s, I, Val, Ex<R>> + Clone + Sized + 's> CloneBoxed<'s, I, R> for T {}
 
+/// `x.mb(f)` = `x.boxed().map(f).boxed()`: the combinator ITSELF is what sits under the `dyn Parser`, so its own dyn entry
+/// points (`go_emit` / `go_check`) are on the path exactly as for a user who writes `a.then(b).boxed()`; the conversion of
+/// its output to `Val` comes on top (before, `x.map(f).boxed()` reached `x` only through `Map::go::<M>`)
+pub trait MapBoxed<'s, I: Kind<'s>, R: Er<'s, I>, O: 's>: Parser<'s, I, O, Ex<R>> + Clone + Sized + 's {
+    fn mb<F: Fn(O) -> Val + Clone + 's>(self, f: F) -> BP<'s, I, R> {
+        I::cb_box_o::<R, O, Self>(self).map(f).boxed()
+    }
+}
+impl<'s, I: Kind<'s>, R: Er<'s, I>, O: 's, T: Parser<'s, I, O, Ex<R>> + Clone + Sized + 's> MapBoxed<'s, I, R, O> for T {}
+
 pub fn toks_of<'s, I: Kind<'s>>(s: &str) -> Vec<I::Tok> {
     s.chars().map(<I::Tok as Tk>::from_char).collect()
 }
@@ -273,6 +283,10 @@ pub trait Kind<'s>: Input<'s, Token = Self::Tok, Span = Self::Spn> + Sized + 's 
     fn p_nested<R: Er<'s, Self>>(a: BP<'s, Self, R>, open: char, close: char, others: &[(char, char)], tag: u32) -> BP<'s, Self, R>;
     /// box a freshly built combinator (see CloneBoxed)
     fn cb_box<R: Er<'s, Self>, T: Parser<'s, Self, Val, Ex<R>> + Clone + 's>(p: T) -> BP<'s, Self, R> {
+        p.boxed()
+    }
+    /// the same for a combinator whose output is not yet a `Val` (see MapBoxed)
+    fn cb_box_o<R: Er<'s, Self>, O: 's, T: Parser<'s, Self, O, Ex<R>> + Clone + 's>(p: T) -> chumsky::Boxed<'s, 's, Self, O, Ex<R>> {
         p.boxed()
     }
     /// the kind is a BorrowInput (any_ref / select_ref! exist)
@@ -704,6 +718,15 @@ impl<'s> Kind<'s> for &'s str {
         crate::build_c::iter_then_str(this, parts, sink)
     }
     fn cb_box<R: Er<'s, Self>, T: Parser<'s, Self, Val, Ex<R>> + Clone + 's>(p: T) -> BP<'s, Self, R> {
+        if DEEP_CLONE.with(|d| d.get()) {
+            let c = p.clone();
+            drop(p);
+            c.boxed()
+        } else {
+            p.boxed()
+        }
+    }
+    fn cb_box_o<R: Er<'s, Self>, O: 's, T: Parser<'s, Self, O, Ex<R>> + Clone + 's>(p: T) -> chumsky::Boxed<'s, 's, Self, O, Ex<R>> {
         if DEEP_CLONE.with(|d| d.get()) {
             let c = p.clone();
             drop(p);
